@@ -983,10 +983,12 @@ def wms_triggers(server, req_names, transparent, query, world):
         allsrc.extend(expand_ideal(server.layers[nm]))
     for a, b in zip(allsrc, allsrc[1:]):
         if a.client.request_template.url == b.client.request_template.url and a.opacity is None and b.opacity is None:
-            if b.image_opts.transparent is None:
-                # the upper source has no transparent flag (treated as opaque by is_opaque and by the upstream
-                # server): rendered alone it hides everything below, combined the lower layers show through
-                trig.append('wms,combine-transparent-unset')
+            if b.image_opts.transparent is None or \
+                    str(b.client.request_template.params.get('transparent', 'false')).lower() != 'true':
+                # the upper source is still combined although its upstream request is not transparent (no
+                # transparent flag at all, or transparent: false together with transparent_color): rendered alone
+                # it is matted on the upstream background, combined the lower layers show through its holes
+                trig.append('wms,combine-opaque-request')
     return trig
 
 
@@ -1029,9 +1031,16 @@ def oracle_wms(ctx, server, req_names, transparent, bg, world, query, obs, rep, 
 
 
 def run(ctx):
-    stream_ops(ctx)
-    stream_merge(ctx)
-    stream_wms(ctx)
+    only = os.environ.get('C14_ONLY')          # debugging aid: run a single stream
+    if only in (None, 'ops'):
+        stream_ops(ctx)
+    if only in (None, 'merge'):
+        stream_merge(ctx)
+    if only in (None, 'wms'):
+        stream_wms(ctx)
+    if os.environ.get('C14_DUMP'):
+        with open(os.environ['C14_DUMP'], 'w') as f:
+            json.dump([x for x in ctx.failures if x['signature'].endswith('composition-differs')][:3], f, default=repr)
     sigs = {}
     for f in ctx.failures:
         sigs[f['signature']] = sigs.get(f['signature'], 0) + 1
